@@ -10,8 +10,7 @@
 // <outdir>/host_model.json.  ssim's SimHost then behaves the way the real host was seen to behave.
 import fs from "node:fs";
 import path from "node:path";
-import { createRequire } from "node:module";
-import { spawnSync } from "node:child_process";
+import { buildHost, betweenBuilds as hostBetweenBuilds } from "./hostlib.mjs";
 
 const out = path.resolve(process.argv[2]);
 const HOME = process.env.VERIF_HOME || "/verif";
@@ -25,28 +24,7 @@ const finish = (code) => {
 };
 try {
   const work = path.join(out, "hostprobe");
-  fs.rmSync(work, { recursive: true, force: true });
-  fs.mkdirSync(path.join(work, "ts-node/tsc-slim"), { recursive: true });
-  fs.mkdirSync(path.join(work, "pkg"), { recursive: true });
-  fs.mkdirSync(path.join(work, "node_modules/chalk"), { recursive: true });
-  fs.mkdirSync(path.join(work, "node_modules/@babel/code-frame"), { recursive: true });
-  const stripped = path.join(work, "bundler.stripped.js");
-  const r = spawnSync(path.join(HOME, "target/release/sim"), ["strip", path.join(TS, "bundler.ts"), stripped], { encoding: "utf8" });
-  if (r.status !== 0 || !fs.existsSync(stripped)) throw new Error("cannot strip bundler.ts: " + (r.stdout || "") + (r.stderr || ""));
-  let s = fs.readFileSync(stripped, "utf8");
-  s = s.replace(/import \* as (\w+) from "([^"]+)";/g, 'const $1 = require("$2");');
-  s = s.replace(/import \{([^}]*)\} from "([^"]+)";/g, (_m, names, from) => `const {${names.replace(/ as /g, ": ")}} = require("${from}");`);
-  s = s.replace(/export class /g, "class ").replace(/export (const|function|type|interface) /g, "$1 ");
-  s += "\nmodule.exports.Bundler = typeof Bundler === 'undefined' ? undefined : Bundler;\n";
-  if (/^\s*import\s/m.test(s)) throw new Error("an import form the probe does not know is left in bundler.ts");
-  fs.writeFileSync(path.join(work, "ts-node/bundler.cjs"), s);
-  fs.copyFileSync(path.join(TS, "tsc-slim/out.js"), path.join(work, "ts-node/tsc-slim/out.js"));
-  fs.writeFileSync(path.join(work, "pkg/beff_wasm.js"), "module.exports = { init() {}, bundle_to_string_v2() {}, bundle_to_diagnostics() { return '{\"diagnostics\":[]}'; }, update_file_content() {} };\n");
-  fs.writeFileSync(path.join(work, "node_modules/chalk/index.js"), "const id = (x) => x; const h = { get: (_t, _k) => p, apply: (_t, _th, a) => a[0] }; const p = new Proxy(id, h); module.exports = p;\n");
-  fs.writeFileSync(path.join(work, "node_modules/chalk/package.json"), '{"name":"chalk","main":"index.js"}');
-  fs.writeFileSync(path.join(work, "node_modules/@babel/code-frame/index.js"), "module.exports.codeFrameColumns = (raw, loc, o) => String(raw).split('\\n').slice(loc.start.line - 1, loc.end.line).join('\\n') + ' ' + (o && o.message);\n");
-  fs.writeFileSync(path.join(work, "node_modules/@babel/code-frame/package.json"), '{"name":"@babel/code-frame","main":"index.js"}');
-  const require = createRequire(path.join(work, "ts-node/x.cjs"));
+  const { newHost, require } = buildHost(work);
   const cwd0 = process.cwd();
   const proj = path.join(work, "proj");
   fs.mkdirSync(path.join(proj, "x"), { recursive: true });
@@ -54,23 +32,15 @@ try {
   fs.writeFileSync(path.join(proj, "entry.ts"), 'import { T } from "./x";\n');
   fs.writeFileSync(path.join(proj, "x/index.ts"), "export type T = string;\n");
   process.chdir(proj);
-  const B = require("./bundler.cjs");
-  const bundler = typeof B.Bundler === "function" ? new B.Bundler(false) : null;
-  // what happens between two questions in a watch session: the watcher hands the changed file over
-  // and a build is started (the wasm calls themselves are stand-ins here; what the host does around
-  // them is the point)
+  const host = newHost();
+  const resolve = host.resolve;
   const betweenBuilds = () => {
-    if (!bundler) return;
     try {
-      bundler.updateFileContent(path.join(proj, "entry.ts"), fs.readFileSync(path.join(proj, "entry.ts"), "utf8"));
-      bundler.bundle_v2(path.join(proj, "entry.ts"), {});
-      bundler.diagnostics(path.join(proj, "entry.ts"), {});
+      hostBetweenBuilds(host, path.join(proj, "entry.ts"));
     } catch (e) {
       model.notes.push("Bundler methods could not be driven: " + String(e && e.message).slice(0, 120));
     }
   };
-  const resolve = globalThis.resolve_import;
-  if (typeof resolve !== "function") throw new Error("bundler.ts no longer installs globalThis.resolve_import");
   const entry = path.join(proj, "entry.ts");
   // 1. is a positive answer kept from one build to the next?
   const a1 = resolve(entry, "./x");
